@@ -31,6 +31,12 @@ func schemeOf(v string) (scheme string, abs bool) {
 // host" / scheme-relative with a host: [scheme ":"] "//" authority with a non-empty host after
 // removing userinfo and port.
 func hasAuthority(v string) bool {
+	// the same preprocessing as schemeOf: an href is a "valid URL potentially surrounded by spaces",
+	// and the URL parser drops ASCII tab and newline wherever they stand
+	v = strings.TrimFunc(v, func(r rune) bool { return r <= 0x20 })
+	if strings.ContainsAny(v, "\t\n\r") {
+		v = strings.NewReplacer("\t", "", "\n", "", "\r", "").Replace(v)
+	}
 	rest := v
 	if _, abs := schemeOf(v); abs {
 		rest = v[strings.Index(v, ":")+1:]
